@@ -7,13 +7,16 @@ package app
 import (
 	"context"
 	"fmt"
+	"hash/fnv"
 	"io"
+	"math/rand"
 	"net/http"
 	"net/http/httptest"
 	"os"
 	"strings"
 	"sync"
 	"testing"
+	"time"
 
 	"github.com/Dash-Industry-Forum/livesim2/pkg/logging"
 	"verif.local/vlib/ora"
@@ -159,3 +162,113 @@ func vfMediaURL(r *ora.Rep, v uint64) string {
 }
 
 func readFile(p string) ([]byte, error) { return os.ReadFile(p) }
+
+// ---- request corpus shared by C07 and C15 ----
+
+type vfReq struct {
+	Method string
+	URL    string
+	Body   string
+	Kind   string
+}
+
+// vfCorpus draws (url, nowMS) pairs over all request kinds of the livesim2 server for the given worlds.
+// Only requests whose answer is defined by (URL, time) are included (no wall-clock dependent pages).
+func vfCorpus(worlds []vfWorld, rng *rand.Rand, perWorld int, gen bool) []vfReq {
+	var out []vfReq
+	add := func(kind, u string) { out = append(out, vfReq{"GET", u, "", kind}) }
+	for _, w := range worlds {
+		if w.Ref.Gen != gen {
+			continue
+		}
+		a := w.Asset
+		if a.Ref.ContentType != "video" {
+			continue
+		}
+		N := int64(a.Ref.N())
+		segMS := a.LoopMS / N
+		for i := 0; i < perWorld; i++ {
+			n := rng.Int63n(5*N) + N
+			if i%7 == 0 {
+				n += 100000 * N
+			}
+			mode := []string{"", "segtimeline_1", "segtimelinenr_1"}[rng.Intn(3)]
+			extra := []string{"", "tsbd_7", "snr_3", "start_1000", "ato_" + fmt.Sprintf("%d.%03d", (segMS/2)/1000, (segMS/2)%1000), "periods_60", "scte35_2", "timesubsstpp_en", "timesubswvtt_sv", "patch_60", "utc_direct-ntp", "mup_3", "spd_6"}[rng.Intn(13)]
+			if extra == "periods_60" && 60000%segMS != 0 {
+				extra = ""
+			}
+			startS := int64(0)
+			if extra == "start_1000" {
+				startS = 1000
+			}
+			cfg := mode
+			if extra != "" {
+				if cfg != "" {
+					cfg += "/"
+				}
+				cfg += extra
+			}
+			atoMS := int64(0)
+			if strings.HasPrefix(extra, "ato_") {
+				atoMS = segMS / 2
+			}
+			snr := int64(0)
+			if extra == "snr_3" {
+				snr = 3
+			}
+			tm := a.AvailMS(a.Ref, n, startS, atoMS) + rng.Int63n(segMS)
+			add("mpd", vfURL(cfg, w.Ref.Path, w.Ref.MPD, tm))
+			rp := a.Reps[a.RepIDs[rng.Intn(len(a.RepIDs))]]
+			if rp.ContentType != "image" {
+				add("init", vfURL(cfg, w.Ref.Path, rp.InitPath, tm))
+			}
+			var mu string
+			switch {
+			case rp.ContentType == "image" || mode != "segtimeline_1":
+				mu = vfMediaURL(rp, uint64(snr+n))
+			case rp.ContentType == "audio":
+				if rp.SampleDur == 0 {
+					continue
+				}
+				as, _ := a.AudioSegTimes(rp, n)
+				mu = vfMediaURL(rp, as)
+			default:
+				if lt, ok := a.LoopTicks(rp); !ok || lt != rp.Dur() {
+					continue
+				}
+				_, s, _ := a.LiveSeg(rp, n)
+				mu = vfMediaURL(rp, s)
+			}
+			add("media-"+rp.ContentType, vfURL(cfg, w.Ref.Path, mu, tm+40))
+			if i%4 == 0 { // error-ish and edge answers are part of the function too
+				add("media-too-early", vfURL(cfg, w.Ref.Path, vfMediaURL(a.Ref, uint64(snr+n+50)), tm))
+				add("media-gone", vfURL(mode, w.Ref.Path, vfMediaURL(a.Ref, 1), tm+900_000))
+				add("unknown-rep", vfURL(cfg, w.Ref.Path, "nosuch/1.m4s", tm))
+			}
+			if extra == "timesubsstpp_en" && mode != "segtimeline_1" {
+				add("timesubs", vfURL(cfg, w.Ref.Path, fmt.Sprintf("timestpp-en/%d.m4s", n), tm+40))
+			}
+			if extra == "timesubswvtt_sv" && mode != "segtimeline_1" {
+				add("timesubs", vfURL(cfg, w.Ref.Path, fmt.Sprintf("timewvtt-sv/%d.m4s", n), tm+40))
+			}
+			if extra == "patch_60" && mode != "" {
+				pt := time.UnixMilli(a.AvailMS(a.Ref, n-1, 0, 0)).UTC().Format("2006-01-02T15:04:05.999Z")
+				add("patch", fmt.Sprintf("/patch/livesim2/%s/%s/%s?publishTime=%s&nowMS=%d", cfg, w.Ref.Path, strings.Replace(w.Ref.MPD, ".mpd", ".mpp", 1), strings.ReplaceAll(pt, ":", "%3A"), tm))
+			}
+			// DRM and chunked (request after the segment end, so no pacing sleep is involved)
+			if i%5 == 0 && !w.Ref.Gen && (strings.HasPrefix(rp.Codecs, "avc") || strings.HasPrefix(rp.Codecs, "mp4a.40")) && mode != "segtimeline_1" {
+				sch := []string{"eccp_cenc", "eccp_cbcs"}[rng.Intn(2)]
+				add("drm-init", vfURL(sch, w.Ref.Path, rp.InitPath, tm))
+				add("drm-media", vfURL(sch, w.Ref.Path, vfMediaURL(rp, uint64(n)), a.AvailMS(a.Ref, n, 0, 0)+60))
+				add("drm-mpd", vfURL(sch, w.Ref.Path, w.Ref.MPD, tm))
+			}
+			if i%6 == 0 && rp.ContentType == "video" {
+				ato := segMS / 2
+				add("chunked", vfURL(fmt.Sprintf("ato_%d.%03d/chunkdur_0.5", ato/1000, ato%1000), w.Ref.Path, vfMediaURL(rp, uint64(n)), a.AvailMS(a.Ref, n, 0, 0)+2*segMS))
+			}
+		}
+	}
+	return out
+}
+
+func vfHash(b []byte) uint64 { h := fnv.New64a(); h.Write(b); return h.Sum64() }
